@@ -49,6 +49,14 @@ f66a656:C15
 e4dd127:C12,C03
 b3305a6:C04,C05
 6a27050:C18
+08bbdb4:C05,C06
+24c2f53:C05
+26b3e7e:C11
+f741aba:C11
+01c9b75:C11
+63af0f8:C11
+9944225:C08
+83acbbb:C04
 "
 if [ -n "$(git -C /repo status --porcelain)" ]; then echo "/repo is not clean"; exit 2; fi
 mkdir -p selftest
